@@ -23,6 +23,8 @@ type Cfg struct {
 	Tunnel  int  `json:"tunnel,omitempty"`  // 0 none, 1 HTTP, 2 WebSocket
 	RTms    int  `json:"rt_ms"`             // ReadTimeout = WriteTimeout (ms)
 	UDPms   int  `json:"udp_ms,omitempty"`  // InitialUDPReadTimeout (ms); 0 = one hour
+	WTms    int  `json:"wt_ms,omitempty"`   // WriteTimeout when it differs from ReadTimeout
+	NoSR    bool `json:"no_sr,omitempty"`   // DisableRTCPSenderReports
 }
 
 // MediaSpec is one media of the stream the correct server offers / the client announces.
@@ -40,6 +42,7 @@ type Call struct {
 	Api   string `json:"api"` // options describe announce setup play record pause | sleep (not a call: let time pass)
 	Media int    `json:"media,omitempty"`
 	Ms    int    `json:"ms,omitempty"` // sleep
+	Silent bool  `json:"silent,omitempty"` // sleep: the scripted server sends nothing at all meanwhile
 	Got   bool   `json:"got,omitempty"` // sleep, abstract label: a UDP packet will have arrived when the liveness timer fires
 }
 
